@@ -378,6 +378,60 @@ def fix_scenario(s):
     return s
 
 
+def age_scenario(s):
+    """One scenario in six (chosen by its id) continues on an archive as releases before 0.6.4 left
+    it: after its first ordinary backup the tails are rewritten without their hunk count (harness
+    step legacy_tails). Such archives are legal and in use; everything after is judged as usual."""
+    if s.get("mode", "clean") not in ("clean", "fault", "conc", "big") or s.get("session") or s.get("no_create"):
+        return s
+    if int(hashlib.sha1(s["id"].encode()).hexdigest(), 16) % 6:
+        return s
+    ops = [st.get("op") for st in s["steps"]]
+    if "archive_digest" in ops or "legacy_tails" in ops or "new_archive" in ops:
+        return s
+    for i, st in enumerate(s["steps"][:-1]):
+        if st.get("op") == "backup" and not any(k in st for k in ("crash_at", "crash_from_end", "crash_torn", "fail_p", "fail_block", "mutate_during", "actor")):
+            s["steps"].insert(i + 1, {"op": "legacy_tails"})
+            s["tags"] = list(s.get("tags", [])) + ["legacy-tails"]
+            break
+    return s
+
+
+def block_subdir(content):
+    """The d/xyz directory a block with this content is stored in."""
+    return hashlib.blake2b(bytes(content)).hexdigest()[:3]
+
+
+def subdir_mate(rng, content, length=None):
+    """A different content whose block is stored in the same d/xyz directory."""
+    want = block_subdir(content)
+    n = max(2, length or len(content))
+    while True:
+        c = bytes(rng.randrange(1, 256) for _ in range(n))
+        if c != bytes(content) and block_subdir(c) == want:
+            return c
+
+
+MATE_OPTS = [{"H": 1000, "M": 1000, "S": 0}, {"H": 2, "M": 8, "S": 0}, {"H": 3, "M": 1000, "S": 1}, {"H": 1, "M": 6, "S": 0}]
+
+
+def mates_pair(rng):
+    """Two trees and settings under which every file is a block of its own, such that blocks of the
+    second tree that the first does not have are stored in the same d/xyz directories as blocks of
+    the first (and the other way round): (t0, t1, opts)."""
+    o = rng.choice(MATE_OPTS)
+    names = rng.sample(["a", "b", "c", "e", "k"], rng.randrange(2, 4))
+    cs = [bytes(rng.randrange(1, 256) for _ in range(rng.randrange(2, 6))) for _ in names]
+    t0 = [node("/", "Dir")] + [node("/" + nm, "File", c, mt=(1600006000 + j, 0)) for j, (nm, c) in enumerate(zip(names, cs))]
+    t1 = [dict(n) for n in t0]
+    j = rng.randrange(0, len(names))
+    # one file rewritten to a mate of its old content, one or two new files that are mates of others
+    t1[1 + j] = node("/" + names[j], "File", subdir_mate(rng, cs[j]), mt=(1600006500 + j, 0))
+    for k in range(rng.randrange(1, 3)):
+        t1.append(node("/m%d" % k, "File", subdir_mate(rng, rng.choice(cs)), mt=(1600006600 + k, 0)))
+    return t0, t1, o
+
+
 _uniq = [0]
 
 
